@@ -1,5 +1,6 @@
 """C16 - multi-record parsers."""
 from ..gcommon import *
+from ..grammar_check import code_seq
 from ..core import strip, path_of
 
 
@@ -22,7 +23,18 @@ def run(tier, repo):
     rp = Report("C16", tier)
     F = load(repo)
     rp.configs.append("default")
-    res = grammar_rules(rp, F, "C16")
+    # C16 is about the repetition wrapper and the alias; what one record looks like is C02/C03/C10's business, so the
+    # sequences are extracted but compared with the crate's own single-record parser, not with the reference grammar
+    res = {}
+    for path, _spec in entries("C16"):
+        try:
+            cs, ev = code_seq(F, path)
+            res[path] = {"code": cs}
+            rp.functions.update(ev.called)
+        except KeyError:
+            rp.fail("MANY1-COMPLETE", path.split("::")[-1] + "/missing", path, "function %s not found" % path)
+        except Opaque as o:
+            rp.fail("MANY1-COMPLETE", path.split("::")[-1] + "/unrecognised", path, "construct the analysis cannot read: %s" % o)
     rp.rule("MANY1-COMPLETE", "tls_parser_many / parse_dtls_plaintext_records = many1(complete(single-record parser)) applied to the whole input")
     rp.rule("NO-FAILURE", "the single-record parsers never produce Err::Failure (so only the first record's failure can fail the whole)")
     rp.rule("ALIAS", "tls_parser passes its argument to parse_tls_plaintext and returns the result unchanged")
@@ -35,7 +47,6 @@ def run(tier, repo):
         ok = len(st) == 1 and st[0][0] == "many1" and len(st[0][2]["steps"]) == 1 and st[0][2]["steps"][0][0] == "complete" and r["code"]["ret"] == ["ok", ["v", st[0][1]]]
         rp.check(ok, "MANY1-COMPLETE", many.split("::")[-1], site(f), "not many1(complete(record)) over the whole input", found=[x[0] for x in st])
         if ok:
-            from ..grammar_check import code_seq
             from .c03 import shape
             inner = st[0][2]["steps"][0][2]
             one, _ = code_seq(F, single)
